@@ -144,6 +144,26 @@ CHECKS = {
         "Trusts the echo module's dump and the Lua stand-in library.",
         "DESIGN.md 5/C14",
     ),
+    "C18": (
+        "exploration",
+        "exhaustive enumeration (operator pairs; strings over a 4-symbol "
+        "alphabet x needles x offsets; all shipped locales) + Hypothesis "
+        "expression ASTs; reference definitions and metamorphic "
+        "parenthesisation / spacing / case relations",
+        "#expr: every ordered pair of binary operators in both association "
+        "shapes, every prefix operator against every binary operator, and "
+        "random ASTs to depth 5 are rendered minimally and fully "
+        "parenthesised with random blanks and letter case and compared with "
+        "a textbook evaluator; string functions are enumerated over all "
+        "short strings x needles x offsets in [-10,10] against definitions "
+        "transcribed from the help pages; plural over 0..30; formatnum "
+        "round trip and grouping for all 96 localization files.",
+        "Trusts refs/pfn.py; the reference declines (and counts) expressions "
+        "where documented and IEEE semantics may differ (ties, mod on "
+        "negatives, domain errors); one listed known finding "
+        "(#titleparts start index) is excluded by signature.",
+        "DESIGN.md 5/C18",
+    ),
 }
 
 NOT_YET = "check not built yet in this round (planned in DESIGN.md section 5)"
